@@ -622,3 +622,14 @@ Lemma req_key_spec : forall proj f1 c1 o1 f2 c2 o2,
   req_key KeyCodeObject SubOptions proj f1 c1 o1 = req_key KeyCodeObject SubOptions proj f2 c2 o2
   <-> c1 = c2 /\ o1 = o2.
 Proof. intros; unfold req_key; split; [intros H; inversion H; auto | intros [-> ->]; auto]. Qed.
+
+(* the probe `has` (IIfHas) only reads the shared state *)
+Lemma probe_read_only : forall s tid k e h m r s',
+  t_req (s_thr s tid) = Some (k, e) -> t_k (s_thr s tid) = IIfHas h m :: r ->
+  step_thread s tid = Some s' ->
+  s_cache s' = s_cache s /\ s_lock s' = s_lock s /\ s_tcount s' = s_tcount s /\ s_serial s' = s_serial s
+  /\ forall j, j <> tid -> s_thr s' j = s_thr s j.
+Proof.
+  intros s tid k e h m r s' Hr Hk Hs. unfold step_thread in Hs. rewrite Hr, Hk in Hs.
+  inversion Hs; subst s'; simpl. repeat split; auto. intros j Hj. apply upd_other; auto.
+Qed.
